@@ -48,7 +48,7 @@ def _concrete_run(inst: Instance, values: dict):
     except Exception as e:  # an exception the harness did not expect
         err = f"{type(e).__name__}: {e}\n{traceback.format_exc(limit=6)}"
     finally:
-        I.unpatch()
+        I.cleanup()
     return I, err
 
 
@@ -153,17 +153,28 @@ def _work(idx: int) -> dict:
     for lab, fs in failures_by_label.items():
         confirmed = None
         tried = 0
+        other = None
         for f in fs[:6]:
             tried += 1
             I, err = _concrete_run(inst, f.model_inputs)
             if lab in I.failed:
                 confirmed = f
                 break
+            if I.failed and other is None:
+                # the real build fails a different assertion of this property on the
+                # solver's input: still a reproduced violation, reported under the
+                # label that failed concretely
+                other = (f, I.failed[0])
             if err is not None and not I.failed:
                 out["unreproduced"].append({"label": lab, "why": "concrete run raised: " + err[:400], "inputs": _short(f.model_inputs)})
         if confirmed is not None:
             out["violations"].append({"label": lab, "instance": inst.name, "inputs": confirmed.model_inputs, "note": confirmed.note,
                                       "count": len(fs)})
+        elif other is not None:
+            f, clab = other
+            if not any(v["label"] == clab for v in out["violations"]):
+                out["violations"].append({"label": clab, "instance": inst.name, "inputs": f.model_inputs,
+                                          "note": f"solver counterexample for {lab}; on the real build the failing assertion is {clab}", "count": len(fs)})
         elif not any(u["label"] == lab for u in out["unreproduced"]):
             out["unreproduced"].append({"label": lab, "why": f"{tried} candidate(s) did not fail concretely", "inputs": _short(fs[0].model_inputs)})
     out["wall_s"] = round(time.time() - t0, 3)
